@@ -63,6 +63,17 @@ def allCoeffExact (N : Nat) : Bool :=
   (List.range (N + 1)).all fun n => (List.range (n + 1)).all fun m => (n - m) % 2 != 0 ||
     (List.range ((n - m) / 2 + 1)).all fun k => Gen.radialNum n m k % (Gen.radialDen n m k : Int) == 0 && Gen.radialDen n m k != 0
 
+/-- Pascal's binomial coefficients (kernel-evaluable) -/
+def chooseN : Nat → Nat → Nat
+  | _, 0 => 1
+  | 0, _ + 1 => 0
+  | n + 1, k + 1 => chooseN n k + chooseN n (k + 1)
+/-- the code's factorial quotient is the textbook binomial form `(-1)^k C(n-k, k) C(n-2k, (n-m)/2 - k)` for all valid (n, m, k), n ≤ N -/
+def allBinomial (N : Nat) : Bool :=
+  (List.range (N + 1)).all fun n => (List.range (n + 1)).all fun m => (n - m) % 2 != 0 ||
+    (List.range ((n - m) / 2 + 1)).all fun k =>
+      radialCoeff n m k == (-1 : Int) ^ k * ((chooseN (n - k) k * chooseN (n - 2 * k) ((n - m) / 2 - k) : Nat) : Int)
+
 /-- R_n^m(1) -/
 def radialAtOne (n m : Nat) : Int := ((List.range ((n - m) / 2 + 1)).map (radialCoeff n m)).foldl (· + ·) 0
 
